@@ -292,6 +292,8 @@ type scenario struct {
 	openCnt  map[int]int       // key -> handles listened and not yet closed (driver-side estimate, only used to avoid useless waiting)
 	finished map[int]bool
 	lg       sync.Mutex
+	// an accept error was injected in this scenario (AcceptStream may legitimately return it)
+	injectedErr bool
 }
 
 func (sc *scenario) emit(ev map[string]any) {
@@ -476,7 +478,10 @@ func (sc *scenario) runThread(t int, script []op, s *sched, wg *sync.WaitGroup) 
 				} else if errors.Is(err, net.ErrClosed) {
 					sc.emit(map[string]any{"ev": "AcceptEnd", "t": t, "h": o.H, "res": "closed", "item": 0})
 				} else {
-					sc.emit(map[string]any{"ev": "AcceptEnd", "t": t, "h": o.H, "res": "err", "item": 0, "err": err.Error()})
+					sc.mu.Lock()
+					inj := sc.injectedErr
+					sc.mu.Unlock()
+					sc.emit(map[string]any{"ev": "AcceptEnd", "t": t, "h": o.H, "res": "err", "item": 0, "err": err.Error(), "injected": inj})
 				}
 			} else {
 				buf := make([]byte, 2048)
@@ -886,6 +891,27 @@ func runSchedule(tr *hx.Trace, idx int, kinds map[int]string, sd schedule, watch
 		default:
 			g := pid
 			switch label {
+			case "GacceptErr":
+				// the next accept of this goroutine fails with EMFILE: the descriptor table is filled up while it runs
+				if got := s.waitParked(g, stepTimeout, "Gaccept"); got == "" {
+					diverged = fmt.Sprintf("step %d: goroutine %d not parked at Gaccept (at %q)", si, g, s.parkedAt(g))
+					break
+				}
+				restore, ferr := exhaustFds()
+				if ferr != nil {
+					diverged = fmt.Sprintf("step %d: cannot exhaust the descriptor table: %v", si, ferr)
+					break
+				}
+				sc.mu.Lock()
+				sc.injectedErr = true
+				sc.mu.Unlock()
+				s.release(g)
+				r := s.settle(g, nil, stepTimeout)
+				restore()
+				if r == "parked:Gsend" && !eager {
+					s.release(g)
+					s.settle(g, nil, stepTimeout)
+				}
 			case "Gtop", "Gaccept", "Pread":
 				if got := s.waitParked(g, stepTimeout, label); got == "" {
 					diverged = fmt.Sprintf("step %d: goroutine %d not parked at %s (at %q)", si, g, label, s.parkedAt(g))
